@@ -154,9 +154,10 @@ def visit (g : Graph) (fuel : Nat) (vertex : Nat) (part : List WtoC) (st : St) :
   let st' := discover st vertex
   visitLoop g fuel [{ node := vertex, succs := g.succ vertex, min := st'.num }] [] part st'
 
-/-- fuel that suffices for every graph (see `C07`): the call chain has at most `n + 1` levels of
-    `visit`, each of at most `2 * (n + edges) + 4` steps -/
-def fuel (g : Graph) : Nat := (g.n + 2) * (2 * (g.n + g.edges) + 4)
+/-- fuel that suffices for every graph (proved: `C07.build_done`): with `T = edges + 2 n`, one
+    level of `visit` / `component` makes fewer than `2 T + 2` chained calls and there are at most
+    `n` nested levels -/
+def fuel (g : Graph) : Nat := (2 * g.n + 2) * (g.edges + 2 * g.n + 1)
 
 def St.init (g : Graph) : St := { dfn := Array.replicate g.n (.fin 0), num := 0, stack := [] }
 
